@@ -52,7 +52,7 @@ def confirm(chk, ex):
 
 
 def main(tier, seed):
-    chk = Check("C11", tier, seed, technique="DSE of the real line_search + max_allowed_steplength + SciPy's DCSRCH._iterate with an uninterpreted objective on the ray; z3 QF_LRA/NRA per path")
+    chk = Check("C11", tier, seed, technique="DSE of the real line_search + max_allowed_steplength + SciPy's DCSRCH._iterate with an uninterpreted objective on the ray; z3 QF_LRA/NRA per path; trial points in the box also bit-precisely (z3 QF_FP, binary64) for n = 1")
     T = "harness.c11:path"
     jobs = []
     Ts = [1, 2] if tier == "quick" else [1, 2, 3]
@@ -74,6 +74,17 @@ def main(tier, seed):
         chk.add(ex)
         if ex.candidates:
             confirm(chk, ex)
+    # "evaluates only points inside the box" is a statement about float64 values: the bit-precise (QF_FP) execution of
+    # the real line search that C02 uses, here for the trial points only (quick: the one-sided box at iteration 0)
+    from . import c02 as C02
+    fjobs = C02.fp_jobs(tier, only=("line_search",))
+    if tier == "quick":
+        fjobs = fjobs[1:2]
+    for ex in driver.explore_many(fjobs, time_limit=1500 if tier == "quick" else 9000, timeout_ms=120000, max_paths=4000):
+        ex.candidates = [c for c in ex.candidates if "trial" in c["name"]]
+        chk.add(ex)
+        if ex.candidates:
+            C02.confirm(chk, ex, rename={"C02.line_search_trial_points_in_box": "C11.trial_points_in_box_bit_precise"})
     # translator validation: the path outcome classes of T=1 runs replayed on the real line_search
     cases, expect = [], []
     for ex in exs:
@@ -104,7 +115,7 @@ def main(tier, seed):
                     obligations=["evaluations_within_budget", "trial_points_in_box", "step_positive_and_feasible", "returned_step_was_evaluated", "strictly_downhill", "no_exception"]))
     chk.functions = W.functions_encoded(H.FUNCS) + [dict(file=W.sp.optimize._dcsrch.__dict__.get("__file__", "scipy/optimize/_dcsrch.py"), qualname="scipy.optimize._dcsrch.DCSRCH._iterate", sha1_of_file=None)]
     chk.bounds = dict(T=Ts, n="1 (2 for the step bound)", iteration_index=[0, 1], bounds="finite / infinite / one-sided", tolerances="defaults; symbolic 0<=ftol<gtol<1 for T=1,2")
-    chk.outside = ["more than %d trials per line search (the property says 1..20)" % max(Ts), "float64 rounding of x0 + alpha*d (mode R)"]
+    chk.outside = ["more than %d trials per line search (the property says 1..20)" % max(Ts), "float64 rounding in mode R; the bit-precise part covers the trial points for n = 1, T = 1 (thorough 2)"]
     chk.stubs = ["DCSRCH tail (dcstep + interval update) cut: interval state havocked, next trial any value in [stpmin, stpmax] (sound over-approximation of the trial sequence)" + ("; thorough also runs the uncut real dcstep for T=2" if tier != "quick" else "")]
     chk.assumptions = ["feasible start and x0+d feasible (what the subspace step guarantees, C09)", "descent direction g0.d < 0", "objective values finite"]
     return chk.finish()
